@@ -3,7 +3,7 @@ from .terms import Lin, ZERO, const, atom, TRUE, c_cmp, c_not, show, show_cond
 from .logic import Facts, simplify, case_split
 from .rules_vector import has_unknown, extend
 from .rules_cmp import deep_subst, argmap
-from .rules_own import assumed_alignment
+from .rules_own import assumed_alignment, _imprecise
 
 # witnesses after which the element holds the content of a source: (function, source kind)
 TAKES = {
@@ -94,7 +94,7 @@ def rule_E(ck, owners, rule="E"):
                     if not f.nonneg(s2 - n2):
                         good, bad = False, (f, n2, s2, hs[0][2])
                         break
-                if bad is not None and (has_unknown(bad[1]) or has_unknown(bad[2])):
+                if bad is not None and (has_unknown(bad[1]) or has_unknown(bad[2]) or _imprecise(bad[2] - bad[1], bad[0])):
                     rec.broken("%s %s %s: image extent undecided: %s vs %s" % (tu.cfg, rule, fn, show(bad[1])[:100], show(bad[2])[:100]))
                     continue
                 rec.ob(rule + "1", good, {"config": tu.cfg, "witness": fn, "obligation": "bytes stored into the block (old or new) <= its size"})
@@ -115,7 +115,7 @@ def rule_E(ck, owners, rule="E"):
                 if not f.nonneg(s2 - n2):
                     good, bad = False, (f, n2, s2)
                     break
-            if bad is not None and (has_unknown(bad[1]) or has_unknown(bad[2])):
+            if bad is not None and (has_unknown(bad[1]) or has_unknown(bad[2]) or _imprecise(bad[2] - bad[1], bad[0])):
                 rec.broken("%s %s %s: image extent undecided: %s vs %s" % (tu.cfg, rule, fn, show(bad[1])[:100], show(bad[2])[:100]))
                 continue
             rec.ob(rule + "1", good, {"config": tu.cfg, "witness": fn, "obligation": "bytes stored into the block (%s) <= its size" % what})
